@@ -76,6 +76,7 @@ class Recorder:
         self._lock = threading.Lock()
         self.evaluations = 0
         self.distinct = set()
+        self.distinct_extra = 0
         self.samples = []
         self.counters = {}
         self.violations = []       # dicts: mechanism, message, payload
@@ -93,6 +94,12 @@ class Recorder:
                 self.distinct.add(key if isinstance(key, int) else h64(key))
             if sample is not None and len(self.samples) < MAX_SAMPLES:
                 self.samples.append(sample)
+
+    def case_bulk(self, n, key_sample=None):
+        """n cases that are distinct by construction (exhaustive enumeration): counted, not hashed"""
+        with self._lock:
+            self.evaluations += n
+            self.distinct_extra += n
 
     def count(self, name, n=1):
         with self._lock:
@@ -124,7 +131,7 @@ class Recorder:
             self.counters["inconclusive_cases"] = self.counters.get("inconclusive_cases", 0) + 1
 
     def partial(self):
-        return {"evaluations": self.evaluations, "distinct": self.distinct, "samples": self.samples,
+        return {"evaluations": self.evaluations, "distinct": self.distinct, "distinct_extra": self.distinct_extra, "samples": self.samples,
                 "counters": self.counters, "violations": self.violations, "per_mech": self._per_mech,
                 "inconclusive": self.inconclusive, "notes": self.notes, "exhaustive": self.exhaustive,
                 "wall": time.time() - self.t0}
@@ -247,6 +254,7 @@ def main_check(prop, tier, seed, replay_path=None, jobs=None):
     results, failures = run_shards(prop, modname, tier, seed, shards, jobs, timeout)
 
     ev = 0
+    distinct_extra = 0
     distinct = set()
     samples = []
     counters = {}
@@ -260,6 +268,7 @@ def main_check(prop, tier, seed, replay_path=None, jobs=None):
             continue
         ev += r["evaluations"]
         distinct |= r["distinct"]
+        distinct_extra += r.get("distinct_extra", 0)
         for s in r["samples"]:
             if len(samples) < MAX_SAMPLES:
                 samples.append(s)
@@ -318,7 +327,7 @@ def main_check(prop, tier, seed, replay_path=None, jobs=None):
     wall = time.time() - t0
     coverage = {
         "evaluations": ev,
-        "distinct_nontrivial": len(distinct),
+        "distinct_nontrivial": len(distinct) + distinct_extra,
         "rule": getattr(mod, "RULE", ""),
         "samples": [jsonable(s) for s in samples] or ["<none>"],
         "monitors": counters,
@@ -342,7 +351,7 @@ def main_check(prop, tier, seed, replay_path=None, jobs=None):
         with open(os.path.join(VERIF, "evidence", "%s.json" % prop), "w") as f:
             json.dump(evidence, f, indent=1, sort_keys=True)
     verdict = "VIOLATED" if unlisted else ("INCONCLUSIVE" if (unreached or (failures and ev == 0) or ev == 0) else "HELD-ON-OBSERVED")
-    print("%s tier=%s seed=%d evaluations=%d distinct=%d wall=%.1fs verdict=%s" % (prop, tier, seed, ev, len(distinct), wall, verdict))
+    print("%s tier=%s seed=%d evaluations=%d distinct=%d wall=%.1fs verdict=%s" % (prop, tier, seed, ev, len(distinct) + distinct_extra, wall, verdict))
     print("  monitors: " + json.dumps(counters, sort_keys=True))
     for ln in lines:
         print(ln)
